@@ -22,6 +22,15 @@ def _matches(f: Dict[str, Any], ev: Dict[str, Any], vec: Dict[str, Any], what: s
         return False
     if "physical_dtype" in m and d.get("physical_dtype") not in m["physical_dtype"]:
         return False
+    if m.get("bound_only"):
+        # every value that violates the chain is one of the two excluded bounds of the FIRST (base) in_range_open
+        c0 = vec["chain"][0]
+        if c0["k"] != "in_range_open":
+            return False
+        bounds = {2 * c0["a"], 2 * c0["b"]}
+        ok = set(vec.get("gen") or [])
+        if not all(r in ok or r in bounds or r == -99 for r in d.get("ranks", [])):
+            return False
     if m.get("shipped_bad") and "ranks" in d:
         # every drawn value is either correct or one the specification's shipped fold predicts
         allowed = set(vec.get("gen") or []) | set(vec.get("shipped_bad") or []) | {-99}
